@@ -221,13 +221,13 @@ def run(pid, tier, seed, replay=None):
     if "Assumption" in r["out"] and "is false" in r["out"]:
         raise ToolError("BinaryWire no longer reproduces the examples of docs/binary.md:\n" + r["out"][-1500:])
 
-    plans = [("mixed", seed, 160 if quick else 2500, 6), ("unknown", seed + 1, 50 if quick else 800, 5),
-             ("known", seed + 2, 60 if quick else 1200, 8), ("columns", seed + 3, 120 if quick else 2500, 6),
-             ("shapes", seed + 4, 50 if quick else 600, 6)]
+    plans = [("mixed", seed, 160 if quick else (20000 if pid == "C01" else 2500), 6), ("unknown", seed + 1, 50 if quick else (6000 if pid == "C01" else 800), 5),
+             ("known", seed + 2, 60 if quick else (8000 if pid == "C01" else 1200), 8), ("columns", seed + 3, 120 if quick else (10000 if pid == "C01" else 2500), 6),
+             ("shapes", seed + 4, 50 if quick else (3000 if pid == "C01" else 600), 6)]
     if pid == "C01":
         # several hundred instances per file (multi-byte referents, long columns); only the round-trip clauses
         # are cheap enough at this size (decoding such a file inside TLC takes tens of minutes)
-        plans.append(("scale", seed + 5, 3 if quick else 40, 6))
+        plans.append(("scale", seed + 5, 3 if quick else 150, 6))
     total = 0
     nontrivial = 0
     samples = []
